@@ -15,4 +15,5 @@ func genAll() {
 	genListeners()
 	genBeaconNode()
 	genDKGRun()
+	genSync()
 }
